@@ -529,16 +529,31 @@ func runC01(c *Ctx) {
 				continue
 			}
 			c.analysed(cs.Caller)
-			rs := rootsOf(provCfg{W: w, InlineResults: true}, args[infoParam])
-			okInfo := false
+			// Where does the info come from? Parameters of unexported functions are resolved
+			// through their callers (a by-value struct parameter field by field), so that what
+			// remains is rooted at the exported entry points: the PublicKey field of a Group, or
+			// the parameter of an exported function that carries the group key. Anything else
+			// (a device key, header fields, the chain key) does not separate groups.
+			rs := rootsOf(provCfg{W: w, InlineResults: true, FollowCallers: true, FollowParam: func(p *ssa.Parameter) bool {
+				f := p.Parent()
+				return fnPkg(f).Path() == pkgSecret && (f.Object() == nil || !f.Object().Exported())
+			}}, args[infoParam])
+			nGroup, other := 0, ""
 			for _, r := range rs.list() {
-				if strings.HasPrefix(r, "param:") && (strings.HasSuffix(r, ".PublicKey") || strings.Contains(strings.ToLower(r), "publickey")) {
-					okInfo = true
+				if !strings.HasPrefix(r, "param:") {
+					continue
+				}
+				name := strings.TrimPrefix(r, "param:")
+				switch {
+				case strings.HasSuffix(name, ".PublicKey"):
+					nGroup++
+				case !strings.Contains(name, ".") && strings.Contains(strings.ToLower(name), "group"):
+					nGroup++
+				default:
+					other = r
 				}
 			}
-			if isNilConst(args[infoParam]) {
-				okInfo = false
-			}
+			okInfo := nGroup > 0 && other == "" && !isNilConst(args[infoParam])
 			c.check(okInfo, "D4", fnName(cs.Caller)+"->"+kf.Name()+"+info", posOf(cs.Instr), "KDF info derives from the group public key", fmt.Sprintf("the chain KDF is called with info not derived from the group public key (roots %v)", rs.list()))
 		}
 	}
